@@ -383,13 +383,56 @@ print("RESULT done")
     return dict(reproduced=bool(violated), violated=violated, observed=observed)
 
 
+def compound_pending_exception_case(case):
+    """C03 (statement): a compound accepts a value iff at least one alternative accepts it and yields the result of the first
+    accepting alternative, identical to validating against that alternative alone.  Probe: the first alternative's check
+    raises (a metaclass __instancecheck__), so that alternative alone rejects the value; the second accepts it.  Each
+    assignment runs in its own child process: a pending exception left behind can surface anywhere later."""
+    import subprocess
+    prog = r"""
+import sys
+from traits.api import HasTraits, Either, Instance, Int
+class Meta(type):
+    def __instancecheck__(cls, inst):
+        raise ZeroDivisionError("instancecheck fails")
+class K(metaclass=Meta):
+    pass
+class A(HasTraits):
+    x = Either(Instance(K), Int)
+    first = Instance(K)
+    second = Int
+a = A()
+name = sys.argv[1]
+try:
+    setattr(a, name, 3)
+    out = "stored %r" % (a.__dict__.get(name),)
+except BaseException as e:
+    out = "raised %s (attribute now %r)" % (type(e).__name__, a.__dict__.get(name, "<unset>"))
+print("RESULT", out)
+"""
+    def assign(name):
+        p = subprocess.run([sys.executable, "-c", prog, name], capture_output=True, text=True, timeout=60)
+        lines = [l for l in p.stdout.splitlines() if l.startswith("RESULT ")]
+        return lines[-1][7:] if lines else "no result (rc=%r, stderr=%r)" % (p.returncode, p.stderr[-200:])
+    alone = [assign("first"), assign("second")]
+    accepted = [r for r in alone if r.startswith("stored")]
+    expected = accepted[0] if accepted else "raised TraitError (attribute now '<unset>')"
+    got = assign("x")
+    violated = []
+    if got != expected:
+        violated.append("Either(Instance(K), Int) <- 3 with K.__instancecheck__ raising: the alternatives alone give %r, so the compound "
+                        "should give %r, but it gives %r" % (alone, expected, got))
+    return dict(reproduced=bool(violated), violated=violated, observed=dict(compound=got, alternatives_alone=alone))
+
+
 def main():
     case = json.loads(sys.stdin.read())
     out = {"float_range": float_range_case, "ctrait_state": ctrait_state_case,
            "setattr_name_refcount": setattr_name_refcount_case,
            "compound_order": compound_order_case, "compound_slow_first": compound_slow_first_case, "dynamic_range": dynamic_range_case,
            "string_state": string_state_case, "getset_delete": getset_delete_case,
-           "set_validate_gate": set_validate_gate_case}[case["family"]](case)
+           "set_validate_gate": set_validate_gate_case,
+           "compound_pending_exception": compound_pending_exception_case}[case["family"]](case)
     print(json.dumps(out, default=repr))
 
 
